@@ -91,6 +91,156 @@ def run(ctx):
                    "generated (or always is)" % (val, "true" if not val else "else"), node=n)
     ctx.require(n_tests >= 150, "fewer than 150 branch conditions in the package")
 
+    # ---- decided by linear arithmetic over the guards that dominate the test (enclosing ifs, range() loops, earlier conjuncts)
+    import itertools
+    from .. import linforms as lf
+
+    def lin(e):
+        ev = lf.LinEval(lambda x: au.U(x) if isinstance(x, (ast.Name, ast.Attribute, ast.Subscript)) or
+                        (isinstance(x, ast.Call) and au.call_name(x) == "len") else None)
+        return ev.ev(e)
+
+    def facts_of(test, truth):
+        """[(form, strict)] meaning form > 0 (strict) / form >= 0, from one comparison that is known true / false."""
+        t, pol = au.strip_not(test)
+        truth = truth == pol
+        if isinstance(t, ast.BoolOp):
+            if isinstance(t.op, ast.And) and truth:
+                return [f for v in t.values for f in facts_of(v, True)]
+            if isinstance(t.op, ast.Or) and not truth:
+                return [f for v in t.values for f in facts_of(v, False)]
+            return []
+        if not (isinstance(t, ast.Compare) and len(t.ops) == 1):
+            return []
+        a, b = lin(t.left), lin(t.comparators[0])
+        if a is None or b is None:
+            return []
+        op = type(t.ops[0])
+        if not truth:
+            op = {ast.Lt: ast.GtE, ast.LtE: ast.Gt, ast.Gt: ast.LtE, ast.GtE: ast.Lt, ast.Eq: ast.NotEq, ast.NotEq: ast.Eq}.get(op)
+        d = lf.add(b, a, -1)        # b - a
+        e = lf.add(a, b, -1)        # a - b
+        if op is ast.Lt:
+            return [(d, True)]
+        if op is ast.LtE:
+            return [(d, False)]
+        if op is ast.Gt:
+            return [(e, True)]
+        if op is ast.GtE:
+            return [(e, False)]
+        if op is ast.Eq:
+            return [(d, False), (e, False)]
+        return []
+
+    def lower_bound(F, facts):
+        """(c, strict) with F >= c (F > c if strict) derivable as F = sum(lambda_k * G_k) + c, lambda_k in {0, 1, 2}; else None."""
+        best = None
+        fs = facts[:6]
+        for lam in itertools.product((0, 1, 2), repeat=len(fs)):
+            D = dict(F)
+            strict = False
+            for l_, (G, st_) in zip(lam, fs):
+                if l_:
+                    D = lf.add(D, lf.scale(G, l_), -1)
+                    strict = strict or st_
+            c = lf.const_of(D)
+            if c is not None:
+                if best is None or (c, strict) > best:
+                    best = (c, strict)
+        return best
+
+    n_lin = 0
+    for fn in sorted(p.all_functions(), key=lambda f: f.qualname):
+        stores = {}
+        for x in au.walk_local(fn.node, include_self=False):
+            if isinstance(x, ast.Name) and isinstance(x.ctx, ast.Store):
+                stores[x.id] = stores.get(x.id, 0) + 1
+        for node in au.walk_local(fn.node, include_self=False):
+            if not isinstance(node, (ast.If, ast.While)):
+                continue
+            conj = au.flatten_boolop(node.test, ast.And) if isinstance(node.test, ast.BoolOp) and isinstance(node.test.op, ast.And) else [node.test]
+            # dominating facts
+            facts = []
+            child = node
+            for a in p.ancestors(node):
+                if a is fn.node:
+                    break
+                if isinstance(a, ast.If):
+                    in_body = any(child is x for x in a.body)
+                    in_else = any(child is x for x in a.orelse)
+                    if in_body or in_else:
+                        facts += [(G, st_, a) for G, st_ in facts_of(a.test, in_body)]
+                if isinstance(a, ast.For) and isinstance(a.target, ast.Name) and isinstance(a.iter, ast.Call) and au.call_name(a.iter) == "range" \
+                        and any(child is x for x in a.body):
+                    args = a.iter.args
+                    lo = lin(args[0]) if len(args) >= 2 else {}
+                    hi = lin(args[1]) if len(args) >= 2 else (lin(args[0]) if args else None)
+                    v = {a.target.id: 1}
+                    if len(args) <= 2:
+                        if lo is not None:
+                            facts.append((lf.add(v, lo, -1), False, a))              # i - lo >= 0
+                        if hi is not None:
+                            facts.append((lf.add(hi, v, -1), True, a))               # hi - i > 0
+                # earlier `if c: continue / break / return` in the same block
+                blk = None
+                for fld in ("body", "orelse"):
+                    if any(child is x for x in getattr(a, fld, []) or []):
+                        blk = getattr(a, fld)
+                if blk:
+                    for s0 in blk:
+                        if s0 is child:
+                            break
+                        if isinstance(s0, ast.If) and not s0.orelse and s0.body and isinstance(s0.body[-1], (ast.Continue, ast.Break, ast.Return, ast.Raise)):
+                            facts += [(G, st_, a) for G, st_ in facts_of(s0.test, False)]
+                child = a
+            for k, c in enumerate(conj):
+                t, pol = au.strip_not(c)
+                if not (isinstance(t, ast.Compare) and len(t.ops) == 1 and isinstance(t.ops[0], (ast.Eq, ast.NotEq, ast.Lt, ast.LtE, ast.Gt, ast.GtE))):
+                    continue
+                a_, b_ = lin(t.left), lin(t.comparators[0])
+                if a_ is None or b_ is None:
+                    continue
+                F = lf.add(a_, b_, -1)
+                if lf.const_of(F) is not None:
+                    continue
+                def stable(G, scope):
+                    """no variable of the fact is (re)bound inside the construct the fact comes from (loop targets of inner loops,
+                    assignments in the guarded block): the fact still holds where the test is evaluated"""
+                    if G is None or not (set(G) - {lf.ONE}):
+                        return False
+                    roots = {a0.split(".")[0].split("[")[0].split("(")[-1] for a0 in G if a0 != lf.ONE}
+                    body = scope.body + getattr(scope, "orelse", []) if not isinstance(scope, ast.For) else scope.body
+                    for s1 in body:
+                        for x in ast.walk(s1):
+                            if isinstance(x, ast.Name) and isinstance(x.ctx, ast.Store) and x.id in roots:
+                                return False
+                            if isinstance(x, (ast.Attribute, ast.Subscript)) and isinstance(x.ctx, ast.Store) and au.base_name(x) in roots:
+                                return False
+                    return True
+                here = [(G, st_) for G, st_, sc in facts if stable(G, sc)] + [f for c0 in conj[:k] for f in facts_of(c0, True)]
+                here = [(G, st_) for G, st_ in here if G is not None and set(G) - {lf.ONE}]
+                if not here:
+                    continue
+                n_lin += 1
+                lo_b = lower_bound(F, here)                       # F >= c
+                up_b = lower_bound(lf.scale(F, -1), here)         # -F >= c'  i.e. F <= -c'
+                pos = lo_b is not None and (lo_b[0] > 0 or (lo_b[0] == 0 and lo_b[1]))      # F > 0
+                neg = up_b is not None and (up_b[0] > 0 or (up_b[0] == 0 and up_b[1]))      # F < 0
+                op = type(t.ops[0])
+                val = None
+                if pos or neg:
+                    val = {ast.Eq: False, ast.NotEq: True, ast.Lt: neg, ast.LtE: neg, ast.Gt: pos, ast.GtE: pos}[op]
+                    if not pol:
+                        val = not val
+                if val is None:
+                    continue
+                ctx.ob("C07.n", fn, "if %s" % au.short(c, 80), False,
+                       "under the guards that dominate it (%s) this comparison is always %s: %s is %s there. The branch it guards is dead "
+                       "(or unconditional) - the case it was written for (e.g. a start ramp still in progress at the beginning of the "
+                       "horizon) is never recognised" % ("; ".join(sorted({("%s %s 0" % (lf.show(G), ">" if st_ else ">=")) for G, st_ in here}))[:200],
+                                                         val, lf.show(F), "> 0" if pos else "< 0"), node=c)
+    ctx.require(n_lin >= 20, "fewer than 20 guarded comparisons analysed by the linear pass")
+
     # ================================================================= C02.f guard agreement
     def quant_atoms(test):
         """{(quantifier, operand, relation, constant)} for all( x <= 0 ) / any( x != 0 ) atoms of a test."""
